@@ -709,7 +709,7 @@ func main() {
 	replayIn := flag.String("replay", "", "JSON file with cases (addrs, ops, pa | conc) to run; observed results are filled in")
 	corpus := flag.String("corpus", "", "directory of corpus JSON cases to prepend")
 	conc := flag.Int("conc", 16, "callers in the concurrent new-address scenario (0 = skip)")
-	forced := flag.String("forced", "first-messages,burst-in-pass", "schedule-forcing scenarios (comma separated, empty = skip)")
+	forced := flag.String("forced", "first-messages,burst-in-pass,same-entry-contention", "schedule-forcing scenarios (comma separated, empty = skip)")
 	live := flag.Bool("live", true, "run the real-collector liveness scenario")
 	dev := flag.String("dev", "v4,v6", "device-level real-time scenarios to run (comma separated families, empty = skip)")
 	flag.Parse()
